@@ -72,7 +72,7 @@ theorem closeOps_schedEvs_pos {c : Cfg} (h : closeOps c.schedEvs ≠ 0) : c.stac
       · simp [closeOps] at h
       · cases op <;> simp [closeOps, Tr.isOp, Spec.Op.name] at h ⊢
 
-theorem ClosedInv_step {P : Prog} {c : Cfg} (hi : Imm c) (h : ClosedInv c) : ClosedInv (outCfg (step P c)) := by
+theorem ClosedInv_step {P : Prog} {c : Cfg} (hi : Imm c) (h : ClosedInv c) : ClosedInv (sOutCfg (step P c)) := by
   unfold ClosedInv at h ⊢
   rw [← closedCbs_cbLog, ← closeOps_schedTr] at h ⊢
   rw [(step_screens P c).2, (step_stack P c).2, closedCbs_append, closeOps_append]
@@ -81,7 +81,7 @@ theorem ClosedInv_step {P : Prog} {c : Cfg} (hi : Imm c) (h : ClosedInv c) : Clo
     simpa [Cfg.cbEvs, Cfg.schedEvs, Cfg.stackOp, hc, closedCbs, closeOps] using h
   · rw [hc] at h
     -- the pending callback after the step was pushed by a `closeScreen`
-    have hpend : pendClosed (outCfg (step P c)).code = 1 → ∃ frm e, ins = .closeScreen frm ∧ c.A.stack.getLast? = some e := by
+    have hpend : pendClosed (sOutCfg (step P c)).code = 1 → ∃ frm e, ins = .closeScreen frm ∧ c.A.stack.getLast? = some e := by
       intro hp
       obtain ⟨s, a, k, hh⟩ := pendClosed_eq_one hp
       have := head_imm_after hi hc hh rfl
@@ -89,11 +89,11 @@ theorem ClosedInv_step {P : Prog} {c : Cfg} (hi : Imm c) (h : ClosedInv c) : Clo
         Instr.callScr.injEq, false_and] at this
       obtain ⟨frm, e, rfl, he, _⟩ := this
       exact ⟨frm, e, rfl, he⟩
-    have hle := pendClosed_le (outCfg (step P c)).code
+    have hle := pendClosed_le (sOutCfg (step P c)).code
     by_cases h1 : ∃ s a k, ins = .callScr s .closed a k
     · obtain ⟨s, a, k, rfl⟩ := h1
-      have : pendClosed (outCfg (step P c)).code = 0 := by
-        rcases Nat.lt_or_ge (pendClosed (outCfg (step P c)).code) 1 with h' | h'
+      have : pendClosed (sOutCfg (step P c)).code = 0 := by
+        rcases Nat.lt_or_ge (pendClosed (sOutCfg (step P c)).code) 1 with h' | h'
         · omega
         · obtain ⟨_, _, hx, _⟩ := hpend (by omega)
           cases hx
@@ -106,8 +106,8 @@ theorem ClosedInv_step {P : Prog} {c : Cfg} (hi : Imm c) (h : ClosedInv c) : Clo
       · obtain ⟨frm, rfl⟩ := h2
         cases hl : c.A.stack.getLast? with
         | none =>
-          have : pendClosed (outCfg (step P c)).code = 0 := by
-            rcases Nat.lt_or_ge (pendClosed (outCfg (step P c)).code) 1 with h' | h'
+          have : pendClosed (sOutCfg (step P c)).code = 0 := by
+            rcases Nat.lt_or_ge (pendClosed (sOutCfg (step P c)).code) 1 with h' | h'
             · omega
             · obtain ⟨_, _, _, hx⟩ := hpend (by omega)
               simp [hl] at hx
@@ -118,7 +118,7 @@ theorem ClosedInv_step {P : Prog} {c : Cfg} (hi : Imm c) (h : ClosedInv c) : Clo
           have h3 : pendClosed (Instr.closeScreen frm :: rest) = 0 := rfl
           omega
         | some e =>
-          have : pendClosed (outCfg (step P c)).code = 1 := by
+          have : pendClosed (sOutCfg (step P c)).code = 1 := by
             simp [step, hc, hl, pendClosed]
           rw [this]
           have h1 : closedCbs c.cbEvs = 0 := by simp [Cfg.cbEvs, hc, closedCbs]
@@ -127,8 +127,8 @@ theorem ClosedInv_step {P : Prog} {c : Cfg} (hi : Imm c) (h : ClosedInv c) : Clo
               Spec.Op.name, Tr.isOp]
           have h3 : pendClosed (Instr.closeScreen frm :: rest) = 0 := rfl
           omega
-      · have : pendClosed (outCfg (step P c)).code = 0 := by
-          rcases Nat.lt_or_ge (pendClosed (outCfg (step P c)).code) 1 with h' | h'
+      · have : pendClosed (sOutCfg (step P c)).code = 0 := by
+          rcases Nat.lt_or_ge (pendClosed (sOutCfg (step P c)).code) 1 with h' | h'
           · omega
           · obtain ⟨frm, _, hx, _⟩ := hpend (by omega)
             exact absurd ⟨frm, hx⟩ h2
